@@ -1518,3 +1518,139 @@ def c25_valid(R):
                 construct=f"{name}: {norm(r.value)} for {sorted(allowed - valid_ops)} under [{'; '.join(held)}]",
             )
     R.need(n >= 10, f"only {n} balance rewrites found")
+
+
+# ----------------------------------------------------------------------------- C21: wrap-around discipline inside StridedInterval
+
+
+def _is_bound_diff(e):
+    return (
+        isinstance(e, ast.BinOp)
+        and isinstance(e.op, ast.Sub)
+        and isinstance(e.left, ast.Attribute)
+        and e.left.attr.lstrip("_") == "upper_bound"
+        and isinstance(e.right, ast.Attribute)
+        and e.right.attr.lstrip("_") == "lower_bound"
+        and ast.unparse(e.left.value) == ast.unparse(e.right.value)
+    )
+
+
+def _nowrap_fact(t, pol, recv):
+    """does the fact (t, pol) establish recv.lower_bound <= recv.upper_bound ?"""
+    if not pol or not isinstance(t, ast.Compare):
+        return False
+    sides = [t.left, *t.comparators]
+    for i, op in enumerate(t.ops):
+        a, b = sides[i], sides[i + 1]
+        if isinstance(op, (ast.LtE, ast.Lt)):
+            if ast.unparse(a) in (f"{recv}.lower_bound", f"{recv}._lower_bound") and ast.unparse(b) in (f"{recv}.upper_bound", f"{recv}._upper_bound"):
+                return True
+            if isinstance(a, ast.Constant) and a.value == 0 and _is_bound_diff(b) and ast.unparse(b.left.value) == recv:
+                return True
+        if isinstance(op, (ast.GtE, ast.Gt)):
+            if ast.unparse(b) in (f"{recv}.lower_bound", f"{recv}._lower_bound") and ast.unparse(a) in (f"{recv}.upper_bound", f"{recv}._upper_bound"):
+                return True
+    return False
+
+
+@rule(
+    "C21.wrapdiff",
+    props=("C21", "C24"),
+    floor=2,
+    family="GRD",
+    desc="inside StridedInterval an *ordering* test on the raw span `x.upper_bound - x.lower_bound` also bounds it below "
+    "by 0 (same comparison chain) or is dominated by a no-wrap fact: intervals wrap (lower > upper), the raw span of a "
+    "wrapped interval is negative and passes every `<= limit` test",
+)
+def c21_wrapdiff(R):
+    tree = R.tree
+    m = tree.mod(SI)
+    n = 0
+    for q, fn in m.functions.items():
+        for c in (x for x in walk_no_nested(fn) if isinstance(x, ast.Compare)):
+            sides = [c.left, *c.comparators]
+            for i, s in enumerate(sides):
+                inner = s
+                if not _is_bound_diff(inner):
+                    continue
+                ops_here = [c.ops[j] for j in (i - 1, i) if 0 <= j < len(c.ops)]
+                if not any(isinstance(o, (ast.Lt, ast.LtE, ast.Gt, ast.GtE)) for o in ops_here):
+                    continue
+                n += 1
+                recv = ast.unparse(inner.left.value)
+                lower_bounded = i > 0 and isinstance(c.ops[i - 1], (ast.LtE, ast.Lt)) and isinstance(sides[i - 1], ast.Constant) and sides[i - 1].value == 0
+                lower_bounded |= i + 1 < len(sides) and isinstance(c.ops[i], (ast.GtE, ast.Gt)) and isinstance(sides[i + 1], ast.Constant) and sides[i + 1].value == 0
+                dominated = any(_nowrap_fact(t, pol, recv) for t, pol in guards.guards_of(c))
+                R.check(
+                    lower_bounded or dominated,
+                    m,
+                    c,
+                    f"{q}: span test is wrap-aware",
+                    f"{q} tests `{norm(c)}`: for a wrapped interval (lower_bound > upper_bound) the raw span is negative "
+                    f"and satisfies the test, so the shortcut below it treats an interval that covers almost the whole "
+                    f"ring as a short one and returns too few values",
+                )
+    R.need(n >= 2, f"only {n} ordering tests on a raw span found in StridedInterval")
+
+
+@rule(
+    "C21.narrow",
+    props=("C21", "C24"),
+    floor=4,
+    family="GRD",
+    desc="truncation shortcuts of StridedInterval (a method that builds an interval at a parameter width from the "
+    "receiver's bounds): keeping the receiver's stride requires a dominating no-wrap fact, and claiming a single value "
+    "(stride=0) requires a dominating fact that reads the receiver's stride (stride multiple of 2**width) or "
+    "establishes a singleton",
+)
+def c21_narrow(R):
+    tree = R.tree
+    m = tree.mod(SI)
+    cls = tree.cls(SI, "StridedInterval")
+    n = 0
+    for name, fn in util.methods_of(cls).items():
+        params = {a.arg for a in fn.args.args} - {"self"}
+        stride_locals = set()
+        for st in walk_no_nested(fn):
+            if isinstance(st, ast.Assign) and len(st.targets) == 1 and isinstance(st.targets[0], ast.Name):
+                if any(isinstance(x, ast.Attribute) and x.attr.lstrip("_") == "stride" and ast.unparse(x.value) == "self" for x in ast.walk(st.value)):
+                    stride_locals.add(st.targets[0].id)
+        for c in (x for x in walk_no_nested(fn) if isinstance(x, ast.Call) and (dotted(x.func) or "") == "StridedInterval"):
+            kws = {k.arg: k.value for k in c.keywords if k.arg}
+            b = kws.get("bits")
+            if not (isinstance(b, ast.Name) and b.id in params):
+                continue
+            lo, hi = kws.get("lower_bound"), kws.get("upper_bound")
+            if lo is None or hi is None or not util.depends_on(lo, {"self.lower_bound", "self._lower_bound"}, fn):
+                continue
+            n += 1
+            facts = guards.guards_of(c)
+            stride = kws.get("stride")
+            if isinstance(stride, ast.Constant) and stride.value == 0:
+                ok = False
+                for t, pol in facts:
+                    names = {x.id for x in ast.walk(t) if isinstance(x, ast.Name)}
+                    reads_stride = any(isinstance(x, ast.Attribute) and x.attr.lstrip("_") == "stride" and ast.unparse(x.value) == "self" for x in ast.walk(t))
+                    if reads_stride or names & stride_locals or "self.is_integer" in ast.unparse(t):
+                        ok = True
+                R.check(
+                    ok,
+                    m,
+                    c,
+                    f"{name}: single-value result depends on the receiver's stride",
+                    f"StridedInterval.{name} returns the single value `{norm(lo)}` under "
+                    f"{[('' if p else 'not ') + ast.unparse(t)[:60] for t, p in facts][-3:]}, none of which looks at the stride: "
+                    f"bounds that agree modulo 2**{b.id} do not make the members agree ([0, 0x290] stride 1 has every low nibble)",
+                )
+            else:
+                ok = any(_nowrap_fact(t, pol, "self") for t, pol in facts)
+                R.check(
+                    ok,
+                    m,
+                    c,
+                    f"{name}: bounds are reused at the narrower width only for a non-wrapping interval",
+                    f"StridedInterval.{name} reuses the receiver's bounds at width `{b.id}` (`{norm(c)[:90]}`) without a "
+                    f"dominating lower_bound <= upper_bound fact: a wrapped interval whose bounds are both small still "
+                    f"contains values above the mask",
+                )
+    R.need(n >= 4, f"only {n} truncation shortcuts found")
